@@ -64,3 +64,12 @@ Definition run_async (m : mode) (verify : bool) (tab : list (bytes * tpacket)) (
            (cancels : list bool) : list (out tpacket) :=
   asession tpacket (tparse tab) t_ver_of t_is_keepalive gen_version m verify (pong_frame m)
            (2 * (length tab + length rs + length ws) + 16) Top (init_state tpacket) rs ws cancels [].
+
+(* ---- conversations: the caller's write() / handshake() calls between its reads (C06/C07/C09/C18/C19/C20) ---- *)
+Definition run_conv (m : mode) (verify : bool) (tab : list (bytes * tpacket)) (tr : list rev) (ops : list uop)
+  : list (bool * out tpacket) :=
+  conv tpacket (tparse tab) t_ver_of t_is_keepalive gen_version m verify (pong_frame m) ops [] tr.
+Definition run_aconv (m : mode) (verify : bool) (tab : list (bytes * tpacket)) (rs : list arev) (ws : list wev)
+           (cancels : list bool) (wsched : list (list bytes)) : list (ctok tpacket) :=
+  aconv tpacket (tparse tab) t_ver_of t_is_keepalive gen_version m verify (pong_frame m)
+        (2 * (length tab + length rs + length ws) + 16) Top (init_state tpacket) rs ws cancels wsched [].
